@@ -251,6 +251,7 @@ def judge_reader(s, job, r, need, declared):
     if cut and kinds:
         fault = "trunc+" + kinds[0]
     base = {"side": "reader", "reader": name, "dec": s["dec"]["kind"], "fault": fault}
+    base["cut_at_zero"] = bool(cut and trunc == 0)
     base["fault_class"] = "cut" if cut else "err" if "err" in kinds else "intr" if ("intr" in kinds or sc.get("intr_every")) else \
         "short" if (kinds or sc.get("chunk")) else "none"
     o = r["o"]
